@@ -31,14 +31,16 @@ def PosDeclC (w : World) : Prop :=
 /-- what one component's reset does to the "declared values" clause groups -/
 theorem applyComp_decl (c : StateComp) (w : World) (t : Tape) (w' : World) (t' : Tape)
     (hwf : ∀ kind o, c = .position kind o → wfPlacement kind o w = true) (hcfg : CfgOK w)
+    (hnc : c ≠ .healthClosed)
     (hlen : w.st.length = w.cfg.length) (h : applyComp c w t = .ok (w', t')) :
     ((∃ kind o, c = .position kind o) ∨ PosDeclC w → PosDeclC w') ∧
     (c = .health ∨ HealthDeclC w → HealthDeclC w') ∧
     (c = .ammo ∨ AmmoExactC w → AmmoExactC w') ∧
     (c = .orient ∨ OrientDeclC w → OrientDeclC w') := by
-  obtain ⟨hS, _⟩ := applyComp_spec c w t w' t' hwf hcfg hlen h
+  obtain ⟨hS, _⟩ := applyComp_spec c w t w' t' hwf hcfg hnc hlen h
   obtain ⟨hn, hcf⟩ := clause_frame hS
   cases c with
+  | healthClosed => exact absurd rfl hnc
   | position kind o =>
     have hspec := place_ok_spec kind o w t (hwf kind o rfl)
     simp only [applyComp, placementReset, PlaceOut.toExcept] at h
@@ -133,6 +135,7 @@ theorem applyComp_decl (c : StateComp) (w : World) (t : Tape) (w' : World) (t' :
 theorem applyComps_decl (cs : List StateComp) :
     ∀ (w : World) (t : Tape) (w' : World) (t' : Tape),
       (∀ kind o, StateComp.position kind o ∈ cs → wfPlacement kind o w = true) → CfgOK w →
+      StateComp.healthClosed ∉ cs →
       w.st.length = w.cfg.length → applyComps cs w t = .ok (w', t') →
       ((∃ kind o, StateComp.position kind o ∈ cs) ∨ PosDeclC w → PosDeclC w') ∧
       (StateComp.health ∈ cs ∨ HealthDeclC w → HealthDeclC w') ∧
@@ -140,7 +143,7 @@ theorem applyComps_decl (cs : List StateComp) :
       (StateComp.orient ∈ cs ∨ OrientDeclC w → OrientDeclC w') := by
   induction cs with
   | nil =>
-    intro w t w' t' _ _ _ h
+    intro w t w' t' _ _ _ _ h
     simp only [applyComps, Except.ok.injEq, Prod.mk.injEq] at h
     rw [← h.1]
     refine ⟨?_, ?_, ?_, ?_⟩
@@ -149,7 +152,9 @@ theorem applyComps_decl (cs : List StateComp) :
     · rintro (h | h); cases h; exact h
     · rintro (h | h); cases h; exact h
   | cons c cs ih =>
-    intro w t w' t' hwf hcfg hlen h
+    intro w t w' t' hwf hcfg hnc hlen h
+    have hnc1 : c ≠ .healthClosed := fun e => hnc (by rw [e]; exact List.mem_cons_self)
+    have hnc2 : StateComp.healthClosed ∉ cs := fun hm => hnc (List.mem_cons_of_mem _ hm)
     simp only [applyComps] at h
     cases h1 : applyComp c w t with
     | error e => rw [h1] at h; cases h
@@ -159,12 +164,12 @@ theorem applyComps_decl (cs : List StateComp) :
       simp only at h
       have hwf1 : ∀ k o, c = .position k o → wfPlacement k o w = true :=
         fun k o hc => hwf k o (by rw [hc]; exact List.mem_cons_self)
-      obtain ⟨hS1, _⟩ := applyComp_spec c w t w1 t1 hwf1 hcfg hlen h1
-      obtain ⟨hP1, hH1, hA1, hO1⟩ := applyComp_decl c w t w1 t1 hwf1 hcfg hlen h1
+      obtain ⟨hS1, _⟩ := applyComp_spec c w t w1 t1 hwf1 hcfg hnc1 hlen h1
+      obtain ⟨hP1, hH1, hA1, hO1⟩ := applyComp_decl c w t w1 t1 hwf1 hcfg hnc1 hlen h1
       have hlen1 : w1.st.length = w1.cfg.length := by rw [hS1.len, hS1.cfg]; exact hlen
       obtain ⟨hP2, hH2, hA2, hO2⟩ := ih w1 t1 w' t'
         (fun k o hm => by rw [wfPlacement_of_sframe hS1]; exact hwf k o (List.mem_cons_of_mem _ hm))
-        (cfgOK_of_sframe hS1 hcfg) hlen1 h
+        (cfgOK_of_sframe hS1 hcfg) hnc2 hlen1 h
       refine ⟨?_, ?_, ?_, ?_⟩
       · rintro (⟨k, o, hm⟩ | hp)
         · rcases List.mem_cons.mp hm with hm | hm
@@ -199,7 +204,7 @@ placement state and the three vitals components, in any order and under any tape
 * every agent stands in a grid cell that stores it. -/
 theorem C08_grid_reset_fresh (cs : List StateComp) (w : World) (t : Tape) (w' : World) (t' : Tape)
     (hpos : ∃ kind o, StateComp.position kind o ∈ cs) (hh : StateComp.health ∈ cs)
-    (ha : StateComp.ammo ∈ cs) (ho : StateComp.orient ∈ cs)
+    (ha : StateComp.ammo ∈ cs) (ho : StateComp.orient ∈ cs) (hnc : StateComp.healthClosed ∉ cs)
     (hwf : ∀ kind o, StateComp.position kind o ∈ cs → wfPlacement kind o w = true) (hcfg : CfgOK w)
     (hn : NoAmmoC w) (h : applyComps cs w t = .ok (w', t')) :
     w'.WInv = true ∧ w'.n = w.n ∧
@@ -211,14 +216,14 @@ theorem C08_grid_reset_fresh (cs : List StateComp) (w : World) (t : Tape) (w' : 
         ∀ o, (w.cfgOf a).initOrient = some (o + 1) → (w'.stOf a).orient = o + 1) ∧
       (∀ q, (w.cfgOf a).initPos = some q → (w'.stOf a).pos = q) ∧
       w'.inGrid (w'.stOf a).pos = true ∧ a ∈ w'.cell (w'.stOf a).pos) := by
-  have hI := C03_reset_establishes cs w t w' t' hpos hh ha ho hwf hcfg hn h
+  have hI := C03_reset_establishes cs w t w' t' hpos hh ha ho hnc hwf hcfg hn h
   obtain ⟨k0, o0, hm0⟩ := hpos
   have hlen : w.st.length = w.cfg.length := by
     have := hwf k0 o0 hm0
     simp only [wfPlacement, Bool.and_eq_true, beq_iff_eq] at this
     exact this.1.1.1.2
-  obtain ⟨hS, _, _, hH, _, hO⟩ := applyComps_spec cs w t w' t' hwf hcfg hlen h
-  obtain ⟨hPd, hHd, hAd, hOd⟩ := applyComps_decl cs w t w' t' hwf hcfg hlen h
+  obtain ⟨hS, _, _, hH, _, hO⟩ := applyComps_spec cs w t w' t' hwf hcfg hnc hlen h
+  obtain ⟨hPd, hHd, hAd, hOd⟩ := applyComps_decl cs w t w' t' hwf hcfg hnc hlen h
   obtain ⟨hn', hcf⟩ := clause_frame hS
   refine ⟨hI, hn', ?_⟩
   intro a haw
